@@ -252,8 +252,20 @@ func startC16Reader(cl *c16Client, n int) *c16Reader {
 	rd := &c16Reader{done: make(chan struct{})}
 	go func() {
 		defer close(rd.done)
+		idle := 0
 		for {
 			b, err := cl.Read(n)
+			if err == nil && len(b) == 0 {
+				// (b, nil) with no bytes: recorded (the oracle rejects it), but do not spin on it
+				if idle++; idle > 64 {
+					rd.mu.Lock()
+					rd.endAt = time.Now()
+					rd.mu.Unlock()
+					return
+				}
+			} else {
+				idle = 0
+			}
 			cp := append([]byte(nil), b...)
 			rd.mu.Lock()
 			rd.reads = append(rd.reads, c16Read{b: cp, err: err})
@@ -596,7 +608,7 @@ func runC16Case(id string, c *c16Case) {
 		fail("close-hangs", "Close did not return within 2 s")
 	}
 	if os.Getenv("C16_TIMING") != "" {
-		fmt.Fprintf(os.Stderr, "c16-timing %s %s unblocked=%v after=%v\n", c.Kind, c.Mode, unblocked, dt.Round(100*time.Microsecond))
+		fmt.Fprintf(os.Stderr, "c16-timing %s %s unblocked=%v after=%v close-error=%v\n", c.Kind, c.Mode, unblocked, dt.Round(100*time.Microsecond), closeErr)
 	}
 	cs.Nontrivial = len(expect) > c.N && len(writes) > 0
 	if cs.Oracle != "" {
